@@ -1,0 +1,22 @@
+//go:build verif
+
+// Contracts for govc (contract-based deductive verification, /verif). Comment-only file:
+// it is compiled only under the build tag "verif" and contains no code.
+
+package bfe_basic
+
+//@ spec listed(name string) bool := exists k int :: 0 <= k && k < len(HopHeaders) && HopHeaders[k] == name
+
+//@ package_invariant[hop_by_hop_table_lists_Connection] listed("Connection")
+//@ package_invariant[hop_by_hop_table_lists_Keep-Alive] listed("Keep-Alive")
+//@ package_invariant[hop_by_hop_table_lists_Proxy-Authenticate] listed("Proxy-Authenticate")
+//@ package_invariant[hop_by_hop_table_lists_Proxy-Authorization] listed("Proxy-Authorization")
+//@ package_invariant[hop_by_hop_table_lists_Te] listed("Te")
+//@ package_invariant[hop_by_hop_table_lists_Trailer] listed("Trailer")
+//@ package_invariant[hop_by_hop_table_lists_Transfer-Encoding] listed("Transfer-Encoding")
+//@ package_invariant[hop_by_hop_table_lists_Upgrade] listed("Upgrade")
+
+//@ func CreateInternalSrvErrResp
+//@   props C26
+//@   note carrier of the package invariant for C26 (the hop-by-hop table); only its panic-freedom is checked here
+//@   requires request != nil
